@@ -281,8 +281,12 @@ func c13UniformDH(c *Ctx, p *Prog) {
 	}
 	for _, s := range p.Stores("common/uniformdh.PublicKey", "bytes") {
 		if s.Fn == sf {
-			if cc, _ := callOf(unspill(s.Val)); cc == nil || p.CalleeID(cc.Common()) != "bytes.Clone" {
-				bad = "the imported bytes are not copied"
+			var by []ssa.Instruction
+			for _, r := range ff.SuccessReturns() {
+				by = append(by, r)
+			}
+			if ok, why := p.privateCopyOf(sf, s.Val, sf.Params[1], by); !ok {
+				bad = "the imported bytes are not copied (" + why + ")"
 			}
 		}
 	}
